@@ -379,7 +379,7 @@ def weights(rc):
                         if b4 is not None:
                             okf = True
                 st = _dr(b2["__ST"], {k_: v_ for k_, v_ in loc1.items() if k_ != F})
-                b5 = tm.is_(st, "[State(_a, _s) for _a, _s in zip(__OV, _t) if _a in __SC]", {"_t": b_["_t"]})
+                b5 = tm.is_(st, "[State(_a, _F.no_to_name[_a][_s]) for _a, _s in zip(__OV, _t) if _a in __SC]", {"_t": b_["_t"], "_F": F})
                 if b5 is not None and tm.is_(_dr(b5["__SC"], {k_: v_ for k_, v_ in loc1.items() if k_ != F}), "set(_F.scope())", {"_F": F}) is not None:
                     oks = True
         rc.ob(f"{q}: kernel rows normalised, factor reduced out of place: {okk}; all factors of the variable {okf}; reduced inside scope {oks}")
@@ -400,12 +400,22 @@ def _parents(n):
 _GS = "        if seed is not None:\n            np.random.seed(seed)\n\n        if start_state is None and self.state is None:\n            self.state = self.random_state()\n        elif start_state is not None:\n            self.set_start_state(start_state)\n\n        types ="
 
 
+@rule("C07.states", "samplers hand state NUMBERS only to number-taking code: no number reaches a name-taking sink, no name-or-number fallback", floor=2)
+def states(rc):
+    from . import shared as _sh
+    _sh.state_domain_rule(rc, ("pgmpy/sampling/",))
+
+
 @rule("C07.defuse", "anchored files: no parameter is accepted and ignored (generic def-use detector, triaged exemptions)", floor=2)
 def defuse(rc):
     from . import shared as _sh
     _sh.defuse_rule(rc, _sh.anchor_files("C07"))
 
 MUTANTS = [
+    dict(kind="break", name="gibbs-kernel-state-number-as-name", file=SP, expect="C07.states",
+         old="                    State(v, factor.no_to_name[v][s])\n", new="                    State(v, s)\n"),
+    dict(kind="break", name="reduce-marg-name-or-number-fallback", file=SB, expect="C07.states",
+         old="        values = [int(state_no) for state_no in sc]\n", new="        try:\n            values = [variable_cpd.get_state_no(variable_evid[i], sc[i]) for i in range(len(sc))]\n        except KeyError:\n            values = sc\n"),
     dict(kind="break", name="slack-added-to-last-state", file="pgmpy/utils/mathext.py", expect="C07.weights",
          old="        weights[compat_fns.argmax(weights)] += error", new="        weights[-1] += error"),
     dict(kind="break", name="gibbs-seed-after-start-state", file=SP, expect="C07.seed",
